@@ -343,5 +343,6 @@ RULE = ('every operator ordering of rank 1-2 (spin-free for spin-conserving, spi
         'states, low-filling sectors, shuffled letters; sparse states on sectors with 126-330 strings of one spin (several '
         'blocks of the blocked kernels); numeric-index elements; expectationValue(H) for the C01 '
         'Hamiltonian classes. non-trivial: tensor with >= 2 distinct non-zero entries / non-zero value')
-NOT_PROVED = ['rdm_kh (the D-vector RDM formulas) and wick_sound are not yet Coq theorems: the implementation is '
-              'compared with the matrix-element specification directly']
+NOT_PROVED = ['the Wick expansions (plain and spin-summed) are proved sound as operator identities (C03_wick_*, C03_spinfree_*); '
+              'rdm_kh (the D-vector RDM formulas of the implementation) is not a Coq theorem: the implementation is compared with '
+              'the matrix-element specification directly']
